@@ -69,7 +69,7 @@ CLAIMED["C01"] = ("Structural clauses: (b) kind-set dataflow proves every typed 
 CLAIMED["C19"] = ("(a) every generated numeric accessor of (scheme bytevector) / (srfi 160 prims) that forms data(B)+off is dominated by "
     "checks implying 0 <= off and off + width <= length(B) (width taken from the helper's memcpy size / element type; facts from the "
     "branch conditions, as linear forms); (b) the JSON reader and writer recursion cycles pass through a verified depth-parameter bounder; (c) growable buffers of json.c advance at most their guard's budget; "
-    "(d) doubles compared with SEXP_MAX_FIXNUM-like constants use the operator that survives the constant's rounding; (e) no fixnum is boxed from a double accumulator without a bound <= 2^53 (integers must not lose low bits on the way in). "
+    "(d) doubles compared with SEXP_MAX_FIXNUM-like constants use the operator that survives the constant's rounding; (e) no fixnum is boxed from a double accumulator without a bound <= 2^53 (integers must not lose low bits on the way in); (f) the escape tables of the JSON string writer and reader invert each other and the quote / backslash are escaped; (g) every accessor stub type-checks its vector argument before reading it. "
     "Decides 'total on hostile offsets / nesting' for these codecs; encode/decode inverses and the Scheme-level codecs are not decided.",
     "relational guard-dominates-access over the CFG (linear forms of branch conditions vs. interprocedural width summaries of accessor helpers); call-graph SCC depth-bound verification",
     "3 C19")
@@ -139,7 +139,7 @@ CLAIMED["C11"] = ("Atomicity by construction: (a) no path in the whole-program c
     "whole-program call-graph reachability with function-pointer flow (per struct field / parameter); dominance side conditions justifying the cut edge",
     "3 C11")
 
-CLAIMED["C04"] = ("Three clauses. Rounded boundaries: a double compared with an integer constant binary64 cannot represent (SEXP_MAX_FIXNUM) uses the operator that stays correct under the rounding. Numbers are immutable: no function Scheme code reaches with its own values modifies (a part of) an operand in place - "
+CLAIMED["C04"] = ("Five clauses. No fixnum unboxing under numeric tests that still admit other representations; the radix is threaded through the number reader. Rounded boundaries: a double compared with an integer constant binary64 cannot represent (SEXP_MAX_FIXNUM) uses the operator that stays correct under the rounding. Numbers are immutable: no function Scheme code reaches with its own values modifies (a part of) an operand in place - "
     "every store to a bignum sign / flonum value is traced to the origin of the object (fresh, operand, or handed back unchanged by a callee) along "
     "feasible paths and through destination-taking helpers to the entry points. Canonical-form must-pass-through. Raw producers are inferred (functions that allocate a bignum themselves, "
     "closed under 'may return such a value unsanitized' over the representation-level helpers); may-taint dataflow through each generic "
